@@ -325,7 +325,7 @@ class Report:
                    samples=self.samples[:12] or [o['hid'] for o in self.obligations[:12]],
                    queries_discharged=len(decided), queries_inconclusive=len(self.inconclusive),
                    solver_wall_s=round(sum(o.get('wall', 0) for o in self.obligations), 2),
-                   obligations=[{k: o.get(k) for k in ('hid', 'status', 'bounds', 'unwind', 'solver', 'wall', 'nprops', 'engine', 'paths', 'queries') if o.get(k) is not None}
+                   obligation_list=[{k: o.get(k) for k in ('hid', 'status', 'bounds', 'unwind', 'solver', 'wall', 'nprops', 'engine', 'paths', 'queries') if o.get(k) is not None}
                                 for o in self.obligations],
                    known_findings_hit=[k for k, _ in self.known_hits],
                    exhaustive=False)
